@@ -44,6 +44,7 @@ func runC17(c *Ctx) {
 	c17ScrapeErrorMetric(c)
 	c17LabelUniqueness(c)
 	c17IndexInStep(c)
+	c01Purity(c) // shared R-C01-4: a scrape that alters the configuration changes the next RA
 	scratchAliasing(c, "R-C17-8", fnsInPkgs(c, "internal/crhttp", "internal/corerad"), "an entry of the API/metrics rendering is overwritten by a later option of the same RA (the JSON no longer mirrors the RA)")
 }
 
@@ -524,6 +525,12 @@ func c17Pack(c *Ctx) {
 					ok = v.Op == an.OpConv && v.Args[0].Op == an.OpCall && v.Args[0].Fn != nil && v.Args[0].Fn.String() == "(time.Duration)."+fs.unit
 					if ok {
 						src = v.Args[0].Args[0]
+						// option lifetimes go up to 2^32-1 seconds ("infinite"): the integer type of the rendering must
+						// hold that on this build target (a plain int is 32 bits wide on 386/arm)
+						if !holdsUint32(c, v.Typ) {
+							ok = false
+							v = &an.Expr{Op: an.OpUnknown, Name: fmt.Sprintf("%s — %s cannot represent 4294967295 on %s", v, typeStr(v.Typ), c.P.Cfg)}
+						}
 					}
 				}
 				ok = ok && src.IsField(fs.srcField) && src.Args[0].Op == an.OpExtract && src.Args[0].Args[0].Op == an.OpTypeAssert
@@ -854,8 +861,28 @@ func c17Gating(c *Ctx) {
 				}
 			}
 			if failed {
-				errs := callsOnPath(p, func(cc *ssa.CallCommon) bool { return an.CallIs(cc, PkgCrhttp, "Handler", "errorf") })
-				c.R.Check(len(errs) == 1, "R-C17-6", c.fname(ih)+":error-response@"+lastAtomName(p), c.fname(ih), c.pos(p.Ret.Pos()), fmt.Sprintf("%d errorf call(s)", len(errs)), "an HTTP 500 error response", "failure swallowed: a partial/incorrect body is served as success")
+				// an error response: http.Error reached on the path, directly or through a helper of the package
+				// that calls it (errorf, or whatever it is called after a tidy-up)
+				direct := callsOnPath(p, func(cc *ssa.CallCommon) bool {
+					fo := an.CalleeObj(cc)
+					return fo != nil && fo.Pkg() != nil && fo.Pkg().Path() == "net/http" && fo.Name() == "Error"
+				})
+				errs := direct
+				if len(direct) == 0 {
+					errs = callsOnPath(p, func(cc *ssa.CallCommon) bool {
+						callee := an.StaticCallee(cc)
+						if callee == nil || callee.Blocks == nil || !load.InModule(callee) {
+							return false
+						}
+						for _, ci := range an.CallsIn(callee) {
+							if fo := an.CalleeObj(ci.Common()); fo != nil && fo.Pkg() != nil && fo.Pkg().Path() == "net/http" && fo.Name() == "Error" {
+								return true
+							}
+						}
+						return false
+					})
+				}
+				c.R.Check(len(errs) == 1, "R-C17-6", c.fname(ih)+":error-response@"+lastAtomName(p), c.fname(ih), c.pos(p.Ret.Pos()), fmt.Sprintf("%d error response(s) (http.Error, directly or through a helper)", len(errs)), "an HTTP 500 error response", "failure swallowed: a partial/incorrect body is served as success")
 			}
 		}
 	}
@@ -1149,4 +1176,26 @@ func c17IndexInStep(c *Ctx) {
 	}
 	c.R.Check(n >= 1 && bad == "", "R-C17-9", fn+":index-in-step", fn, c.pos(h.Pos()), fmt.Sprintf("%d iteration path(s); %s", n, bad),
 		"the output is indexed with the counter of the loop over the interfaces, so every iteration appends exactly one entry", "an iteration that appends nothing shifts the entries: a later index is out of range and the API request panics (or fills in the wrong interface)")
+}
+
+
+// holdsUint32 reports whether integer type t can represent 2^32-1 on the build
+// target being analysed.
+func holdsUint32(c *Ctx, t types.Type) bool {
+	if t == nil {
+		return false
+	}
+	b, ok := t.Underlying().(*types.Basic)
+	if !ok || b.Info()&types.IsInteger == 0 {
+		return false
+	}
+	sz := types.SizesFor("gc", c.P.Cfg.GOARCH)
+	if sz == nil {
+		return false
+	}
+	bits := sz.Sizeof(t) * 8
+	if b.Info()&types.IsUnsigned != 0 {
+		return bits >= 32
+	}
+	return bits >= 64
 }
